@@ -517,6 +517,18 @@ fn check_w2(ctx: &Ctx, worker: usize, case: &Case) -> Outcome {
     }
     // the model must agree with the fault-free run, else this program is not usable
     let reference = ctx.reference(worker, &case.program);
+    if reference.status == Status::Exit(0) && !reference.stderr.is_empty() {
+        // holds for every program, model or not: success means a silent stderr
+        out.nontrivial = true;
+        out.violation = Some(v(
+            "a successful script writes nothing to stderr and exits 0",
+            "success-with-stderr",
+            "the fault-free run in the reference world exits 0 but wrote to stderr".to_string(),
+            "exit:0 stderr=\"\"".into(),
+            &reference,
+        ));
+        return out;
+    }
     if reference.stdout != w2.stdout || reference.status != Status::Exit(0) || !reference.stderr.is_empty() {
         out.skipped = Some("baseline_mismatch".into());
         return out;
